@@ -19,6 +19,9 @@ MISSED = {  # seeded id -> where the strengthening is described (from the build 
     "C17-2": "missed at first; C17 generators strengthened (re-entering a yielded object without re-executing the op; theorem C17_reenter_with_clearing_enter_refuted)",
     "C19-1": "missed at first; C19 strengthened (unbatched locked arguments reused across calls with writes in between; theorem C19_memo_none_copy_refuted)",
     "C19-2": "missed at first; C19 strengthened (in-place programs on lazy stacks vmapped along the stack dim)",
+    "C07-4": "missed at first; notes/C07-selftest.md §Seeded change C07-4 (one-member lazy stacks, stacks reduced to one member by slice / split / chunk; every copy-class op on a stack judged by the copy oracle; theorem C07_lazy_get_fresh_one_member)",
+    "C19-3": "missed at first; notes/C19-selftest.md §Seeded change C19-3 (input-integrity oracle, names of every output, repeated calls on named locked inputs; theorem C19_unbatch_names_fresh)",
+    "C09-3": "missed at first; notes/C09-selftest.md §Seeded change C09-3 (stacks that stay lazy under expand, operands of higher rank than the stack, square shapes; theorem C09_lazy_expand_member)",
 }
 for d in sorted(glob.glob(os.path.join(HERE, "seeded", "*", ""))):
     sid = os.path.basename(d.rstrip("/"))
